@@ -434,8 +434,11 @@ class MailboxData(MailboxDataInterface[Message]):
 
     async def cleanup(self) -> None:
         self._maildir.clean()
-        keys = await self._get_keys()
         async with UidList.with_write(self._path) as uidl:
+            # the folder is scanned while the UID list is locked: a message
+            # added meanwhile has either both its file and its record, or
+            # neither
+            keys = await self._get_keys()
             for rec in list(uidl.records):
                 key = rec.key
                 info = keys.get(key)
